@@ -257,7 +257,7 @@ def parse_table(repo):
                 if 's = 2 * pi * I / c1' not in asg:
                     ret = None
             # optional three-way form (after the half-plane fix):
-            #   pole_imag = im(-c0 / c1); if pole_imag.is_negative: return -s*exp(c0*v*s)*Heaviside(v)
+            #   pole_imag = im(symsimplify(-c0 / c1)); if pole_imag.is_negative: return -s*exp(c0*v*s)*Heaviside(v)
             #   if pole_imag.is_zero: return -s/2*exp(c0*v*s)*sign(v);  return s*exp(c0*v*s)*Heaviside(-v)
             info['cpole_three_way'] = False
             if inner:
@@ -266,7 +266,7 @@ def parse_table(repo):
                     tests = [ast.unparse(x.test) for x in sub]
                     rets2 = [ast.unparse(x.body[0].value) if len(x.body) == 1 and isinstance(x.body[0], ast.Return) else None for x in sub]
                     ok3 = (tests == ['pole_imag.is_negative', 'pole_imag.is_zero'] and None not in rets2
-                           and 'pole_imag = im(-c0 / c1)' in asg and all(not x.orelse for x in sub))
+                           and 'pole_imag = im(symsimplify(-c0 / c1))' in asg and all(not x.orelse for x in sub))
                     if ok3:
                         try:
                             u1 = _param_entry(rets2[0], lambda S, v, c0, c1, env: -env['s'] * S.exp(c0 * v * env['s']) * env['Heaviside'](v))
